@@ -340,7 +340,7 @@ def gen_case(rng, game, lang):
 
 
 def gen_cases(rng, tier):
-    n = 1500 if tier == "quick" else 12000
+    n = 1000 if tier == "quick" else 12000      # quick trimmed from 1500 (wall time of ./check C12 under load)
     out = []
     combos = [(g, l) for g in fsgen.SUPPORTED for l in range(8)]
     for i in range(n):
